@@ -1240,3 +1240,164 @@ Theorem judge_known_narrow ops b c : judge ops b = FailsKnown c ->
   (c = 1 /\ known_collateral_plutus ops = true) \/ (c = 2 /\ known_prop_nonscript ops = true).
 Proof. unfold judge. cbv zeta. apply verdict_of_known. Qed.
 
+
+(* ======================== the known classes, characterised on the call list ======================== *)
+(* K1: some collateral input's LAST registration is add_plutus_script_input *)
+Theorem known_collateral_plutus_iff ops :
+  known_collateral_plutus ops = true <-> exists o h rid, spend_final (ops_col ops) o = Some (Some (h, WPlutus rid)).
+Proof.
+  unfold known_collateral_plutus. rewrite run_state, proj_collateral. cbn [t_collateral txb_empty].
+  pose proof (spend_pointers (ops_col ops)) as P. pose proof (spend_field (ops_col ops)) as F. cbv zeta in P, F.
+  set (st := fold_left ib_step (ops_col ops) ib_empty) in *. split.
+  - intros H. assert (exists r, In r (ib_plutus st)) as [r Hin].
+    { revert H. generalize (ib_plutus st). intros [|r t]; [discriminate|]. intros _. exists r. left; reflexivity. }
+    pose proof (ib_plutus_tag _ _ Hin) as Ht. apply (P r Ht) in Hin as (o & rid & Hf & _ & _).
+    unfold spend_wits in Hf. destruct (spend_final (ops_col ops) o) as [[[h w]|]|] eqn:Fo; cbn in Hf; try discriminate.
+    injection Hf as ->. exists o, h, rid. exact Fo.
+  - intros (o & h & rid & Hf).
+    assert (Hw : spend_wits (spend_final (ops_col ops)) o = Some (Some (WPlutus rid))) by (unfold spend_wits; rewrite Hf; reflexivity).
+    assert (Hb : In o (ib_body st)) by (apply F; rewrite Hw; discriminate).
+    destruct (index_of_some outpoint_ledger_ltb (eq_ind _ _ outpoint_st _ outpoint_code_ledger) o (sset_sort outpoint_ledger_ltb (ib_body st))) as [i Hi].
+    { apply (sset_sort_In outpoint_ledger_ltb (eq_ind _ _ outpoint_st _ outpoint_code_ledger)). exact Hb. }
+    assert (Hin : In (mkR TSpend i rid) (ib_plutus st)).
+    { apply (P (mkR TSpend i rid) eq_refl). exists o, rid. unfold ledger_set_index. auto. }
+    revert Hin. generalize (ib_plutus st). intros [|x t]; [contradiction | reflexivity].
+Qed.
+
+(* K2: some proposal without policy hash whose last accepted call is add_with_plutus_witness *)
+Theorem known_prop_nonscript_iff ops :
+  known_prop_nonscript ops = true <->
+  exists p rid, prop_final (ops_prop ops) p = Some (Some (WPlutus rid)) /\ prop_has_script_hash p = false.
+Proof.
+  unfold known_prop_nonscript. rewrite run_state, proj_props. cbn [t_props txb_empty].
+  destruct (prop_refine (ops_prop ops)) as [S G]. set (st := fold_left prop_apply (ops_prop ops) []) in *.
+  assert (ND : NoDup (map fst st)) by (apply sortedk_nodup with (ltb := prop_rust_ltb); [apply prop_st | exact S]).
+  rewrite existsb_exists. split.
+  - intros ([p w] & Hin & H). cbn [fst snd] in H. destruct w as [[|rid]|]; cbn [plutus_rid] in H; try discriminate.
+    exists p, rid. split; [rewrite <- G; apply (al_get_nodup prop_rust_ltb prop_st); assumption | apply negb_true_iff, H].
+  - intros (p & rid & Hf & Hs). rewrite <- G in Hf. apply (al_get_In prop_rust_ltb prop_st) in Hf.
+    exists (p, Some (WPlutus rid)). split; [exact Hf|]. cbn. rewrite Hs. reflexivity.
+Qed.
+
+(* ======================== the judge is complete: it accepts what the model builds outside the known classes ======================== *)
+Section JudgeComplete.
+  Context {K : Type} (ltb : K -> K -> bool) (ST : strict_total ltb).
+  Variables (T : tag) (keys : list K) (final : K -> option (option wit)) (ix : K -> option N)
+            (field : list K) (locked : K -> bool) (R : list redeemer).
+  Hypothesis support : forall k, final k <> None -> In k keys.
+  Hypothesis ix_total : forall k, In k field -> exists i, ix k = Some i.
+
+  Lemma j_field_complete : spec_field final field -> j_field (eqb_of ltb) keys final field = true.
+  Proof.
+    intros F. unfold j_field. apply andb_true_intro. split; apply forallb_forall; intros k Hk.
+    - destruct (final k) eqn:E.
+      + assert (Hin : In k field) by (apply F; congruence). apply (existsb_eqb_In ltb ST) in Hin. rewrite Hin. reflexivity.
+      + destruct (existsb (eqb_of ltb k) field) eqn:X; [|reflexivity]. apply (existsb_eqb_In ltb ST) in X. apply F in X. congruence.
+    - apply (existsb_eqb_In ltb ST). apply support, F, Hk.
+  Qed.
+
+  Lemma j_present_complete : spec_field final field -> spec_pointers T final ix R -> j_present T keys final ix R = true.
+  Proof.
+    intros F P. unfold j_present. apply forallb_forall. intros [k rid] Ha. cbn [fst snd].
+    apply attachments_In in Ha as [_ Hf].
+    destruct (ix_total k) as [i Hi]; [apply F; congruence|]. rewrite Hi.
+    apply existsb_exists. exists (mkR T i rid). split; [|apply red_eqb_true; reflexivity].
+    apply (P (mkR T i rid) eq_refl). exists k, rid. auto.
+  Qed.
+
+  Lemma j_expected_complete : spec_pointers T final ix R -> j_expected T keys final ix R = true.
+  Proof.
+    intros P. unfold j_expected. apply forallb_forall. intros r Hin.
+    destruct (tag_code (r_tag r) =? tag_code T) eqn:E; [|reflexivity]. cbn [negb orb].
+    apply N.eqb_eq, tag_code_inj in E. apply (P r E) in Hin as (k & rid & Hf & Hi & Hd).
+    apply existsb_exists. exists (k, rid). split.
+    - apply attachments_In. split; [apply support; congruence | exact Hf].
+    - cbn [fst snd]. rewrite Hi, Hd, !N.eqb_refl. reflexivity.
+  Qed.
+
+  Lemma j_locked_complete : spec_locked final locked -> j_locked keys final locked = true.
+  Proof.
+    intros L. unfold j_locked. apply forallb_forall. intros [k rid] Ha. cbn [fst]. apply attachments_In in Ha as [_ Hf]. eapply L, Hf.
+  Qed.
+End JudgeComplete.
+
+Lemma dedup_first_NoDup l : NoDup (dedup_first l).
+Proof.
+  induction l as [|a t IH]; cbn [dedup_first]; constructor.
+  - rewrite filter_In. intros [_ H]. rewrite (proj2 (red_eqb_true a a) eq_refl) in H. discriminate.
+  - apply NoDup_filter, IH.
+Qed.
+
+Lemma j_unique_complete R : NoDup R ->
+  (forall r1 r2, In r1 R -> In r2 R -> r_tag r1 = r_tag r2 -> r_index r1 = r_index r2 -> r1 = r2) -> j_unique R = true.
+Proof.
+  induction 1 as [|a t Ha ND IH]; intros U; [reflexivity|]. cbn [j_unique]. apply andb_true_intro. split.
+  - apply negb_true_iff. destruct (existsb (ptr_eqb a) t) eqn:E; [|reflexivity]. exfalso.
+    apply existsb_exists in E as (r & Hr & Hp). apply ptr_eqb_true in Hp as [Et Ei].
+    assert (a = r) by (apply U; cbn; auto). subst. contradiction.
+  - apply IH. intros r1 r2 H1 H2. apply U; cbn; auto.
+Qed.
+
+Lemma verdict_of_holds k1 k2 : verdict_of true true true k1 k2 = Holds.
+Proof. reflexivity. Qed.
+
+Opaque j_field j_present j_expected j_locked j_unique.
+Theorem judge_complete ops st flags b : run ops = (st, flags) -> tx_build st = Ok b ->
+  known_collateral_plutus ops = false -> known_prop_nonscript ops = false -> judge ops b = Holds.
+Proof.
+  intros Hr Hb K1 K2. pose proof (c10_statement_holds _ _ _ _ Hr Hb K1 K2) as C.
+  unfold C10_statement in C. cbv zeta in C.
+  destruct C as ((A1 & A2 & A3) & (B1 & B2) & (C1 & C2 & C3) & (D1 & D2 & D3) & (E1 & E2 & E3) & (F1 & F2 & F3) & U).
+  assert (NDR : NoDup (b_redeemers b)).
+  { destruct (build_fields _ _ Hb) as (_ & _ & _ & _ & _ & _ & _ & ->). apply dedup_first_NoDup. }
+  assert (Ss : forall k, spend_wits (spend_final (ops_in ops)) k <> None -> In k (map in_op_key (ops_in ops))).
+  { intros k Hk. apply (final_last_support (eqb_of outpoint_ltb) in_op_key in_op_val (fun _ => true)); [intros x y E; apply (eqb_of_true _ outpoint_st), E|].
+    unfold spend_wits, spend_final in Hk. intros E. rewrite E in Hk. apply Hk. reflexivity. }
+  assert (Sm : forall k, mint_wits (mint_final (ops_mint ops)) k <> None -> In k (map mo_policy (ops_mint ops))).
+  { intros k Hk. apply (final_first_support (eqb_of bytes_ltb) mo_policy mo_wit (fun o => negb (mo_zero o))); [intros x y E; apply (eqb_of_true _ bytes_strict_total), E|].
+    unfold mint_wits, mint_final in Hk. intros E. rewrite E in Hk. apply Hk. reflexivity. }
+  assert (Sc : forall k, cert_final (ops_cert ops) k <> None -> In k (map wop_key (ops_cert ops))).
+  { apply final_first_support. intros x y E; apply (eqb_of_true _ cert_st), E. }
+  assert (Sw : forall k, wd_final (ops_wd ops) k <> None -> In k (map wop_key (ops_wd ops))).
+  { apply final_last_support. intros x y E; apply (eqb_of_true _ racct_ledger_st), E. }
+  assert (Sv : forall k, vote_final (ops_vote ops) k <> None -> In k (map wop_key (ops_vote ops))).
+  { apply final_first_support. intros x y E; apply (eqb_of_true _ voter_ledger_st), E. }
+  assert (Sp : forall k, prop_final (ops_prop ops) k <> None -> In k (map wop_key (ops_prop ops))).
+  { apply final_last_support. intros x y E; apply (eqb_of_true _ prop_st), E. }
+  assert (Iset : forall {K} (l : K -> K -> bool), strict_total l -> forall fld k, In k fld -> exists i, ledger_set_index l k fld = Some i).
+  { intros K0 l S0 fld k Hin. apply (index_of_some l S0). apply (sset_sort_In l S0). exact Hin. }
+  assert (Iseq : forall {K} (l : K -> K -> bool), strict_total l -> forall fld k, In k fld -> exists i, ledger_seq_index l k fld = Some i).
+  { intros K0 l S0 fld k Hin. apply (index_of_some l S0). exact Hin. }
+  pose proof (eq_ind _ _ outpoint_st _ outpoint_code_ledger) as outpoint_ledger_st.
+  unfold judge. cbv zeta.
+  match goal with |- verdict_of ?c ?s ?p _ _ = _ => assert (Hc : c = true); [| assert (Hs : s = true); [| assert (Hp : p = true)]] end.
+  - repeat (apply andb_true_intro; split).
+    + eapply (j_field_complete _ outpoint_st); eassumption.
+    + eapply (j_present_complete TSpend); try eassumption. apply (Iset _ _ outpoint_ledger_st).
+    + eapply j_locked_complete; eassumption.
+    + eapply (j_field_complete _ bytes_strict_total); eassumption.
+    + eapply (j_present_complete TMint); try eassumption. apply (Iset _ _ bytes_strict_total).
+    + eapply j_expected_complete; eassumption.
+    + eapply (j_field_complete _ cert_st); eassumption.
+    + eapply (j_present_complete TCert); try eassumption. apply (Iseq _ _ cert_st).
+    + eapply j_expected_complete; eassumption.
+    + eapply j_locked_complete; eassumption.
+    + eapply (j_field_complete _ racct_ledger_st); eassumption.
+    + eapply (j_present_complete TReward); try eassumption. apply (Iset _ _ racct_ledger_st).
+    + eapply j_expected_complete; eassumption.
+    + eapply j_locked_complete; eassumption.
+    + eapply (j_field_complete _ voter_ledger_st); eassumption.
+    + eapply (j_present_complete TVote); try eassumption. apply (Iset _ _ voter_ledger_st).
+    + eapply j_expected_complete; eassumption.
+    + eapply j_locked_complete; eassumption.
+    + eapply (j_field_complete _ prop_st); eassumption.
+    + eapply (j_present_complete TPropose); try eassumption. apply (Iseq _ _ prop_st).
+    + eapply j_expected_complete; eassumption.
+    + apply j_unique_complete; [apply NoDup_filter, NDR|]. intros r1 r2 H1 H2. apply filter_In in H1 as [H1 _], H2 as [H2 _]. apply U; assumption.
+  - apply andb_true_intro. split.
+    + eapply j_expected_complete; eassumption.
+    + apply j_unique_complete; [apply NoDup_filter, NDR|]. intros r1 r2 H1 H2. apply filter_In in H1 as [H1 _], H2 as [H2 _]. apply U; assumption.
+  - eapply j_locked_complete; eassumption.
+  - rewrite Hc, Hs, Hp. reflexivity.
+Qed.
+Transparent j_field j_present j_expected j_locked j_unique.
